@@ -100,6 +100,28 @@ func replayMain(args []string) {
 		}
 		return
 	}
+	for _, line := range strings.Split(string(b), "\n") {
+		if !strings.HasPrefix(line, "par ") {
+			continue
+		}
+		var c struct {
+			Cfg  config `json:"cfg"`
+			Reps int    `json:"reps"`
+		}
+		if err := json.Unmarshal([]byte(strings.TrimPrefix(line, "par ")), &c); err != nil {
+			fmt.Fprintln(os.Stderr, err)
+			os.Exit(3)
+		}
+		res := runJob(job{ID: "replay", Cfg: c.Cfg, Mode: "par", Max: c.Reps})
+		fmt.Printf("configuration: %s, %d real-parallel repetitions (GOMAXPROCS 2,4,8,16)\n", c.Cfg, res.Executions)
+		for _, v := range res.Viol {
+			fmt.Printf("VIOLATION %s (%d repetitions) :: %s\n%s\n", v.Key, v.Count, v.What, v.Replay)
+		}
+		if len(res.Viol) == 0 {
+			fmt.Println("no violation in these repetitions")
+		}
+		return
+	}
 	fmt.Fprintln(os.Stderr, "no 'case' line in", args[0], "(layer-2 replays are scripts: run them with origami-race, see the header of the file)")
 	os.Exit(3)
 }
@@ -138,12 +160,14 @@ type tierPlan struct {
 	pbBound            int     // preemption bound for the larger configurations
 	pbCap              int
 	randWalks          int
+	parReps            int     // real-parallel repetitions per configuration
+	apiBelow           float64 // configurations below this bound are also enumerated through the Go API directly
 }
 
 func layer1Jobs(e *lib.Env) []job {
-	plan := tierPlan{maxP: 2, maxC: 2, maxOps: 2, fullBelow: 60000, fullCap: 120000, pbBound: 2, pbCap: 3000, randWalks: 200}
+	plan := tierPlan{maxP: 2, maxC: 2, maxOps: 2, fullBelow: 60000, fullCap: 120000, pbBound: 2, pbCap: 3000, randWalks: 200, parReps: 1000, apiBelow: 4000}
 	if !e.Quick() {
-		plan = tierPlan{maxP: 3, maxC: 3, maxOps: 3, fullBelow: 2000000, fullCap: 4000000, pbBound: 2, pbCap: 8000, randWalks: 500}
+		plan = tierPlan{maxP: 3, maxC: 3, maxOps: 3, fullBelow: 2000000, fullCap: 4000000, pbBound: 2, pbCap: 8000, randWalks: 500, parReps: 4000, apiBelow: 60000}
 	}
 	var jobs []job
 	seedRng := e.Rand("layer1")
@@ -164,6 +188,19 @@ func layer1Jobs(e *lib.Env) []job {
 								cfg.NRecv = 0
 							}
 							id := cfg.String()
+							reps := plan.parReps
+							if p >= 2 && capa >= 1 {
+								reps *= 2 // producers racing for the last free slot
+								if c == 0 {
+									reps *= 3 // ... and nobody receives: whatever goes wrong stays visible at the end
+								}
+							}
+							jobs = append(jobs, job{ID: id + " par", Cfg: cfg, Mode: "par", Max: reps})
+							if cfg.interleavingBound() <= plan.apiBelow {
+								api := cfg
+								api.Via = "api"
+								jobs = append(jobs, job{ID: api.String() + " dfs", Cfg: api, Mode: "dfs", Max: plan.fullCap})
+							}
 							if cfg.interleavingBound() <= plan.fullBelow {
 								jobs = append(jobs, job{ID: id + " dfs", Cfg: cfg, Mode: "dfs", Max: plan.fullCap})
 							} else {
@@ -202,6 +239,8 @@ type l1Totals struct {
 	blockedRuns int
 	crashed     int
 	stuck       int
+	parallel    int
+	overlap     int
 	lin         map[string]int
 	byMode      map[string]int
 	samples     []any
@@ -216,6 +255,9 @@ func driver() {
 
 	// ---- layer 1
 	jobs := layer1Jobs(e)
+	if os.Getenv("C09_SKIP_L1") != "" { // development aid: layer 2 alone (the run is then inconclusive by construction of the counts)
+		jobs = nil
+	}
 	// longest first, so that the tail of the parallel map is short
 	sort.SliceStable(jobs, func(i, j int) bool { return jobCost(jobs[i]) > jobCost(jobs[j]) })
 	tot := &l1Totals{lin: map[string]int{}, byMode: map[string]int{}}
@@ -265,6 +307,8 @@ func driver() {
 	e.Extra("layer1_enumerations_capped_or_sampled", tot.capped)
 	e.Extra("layer1_complete_configurations", sampleStrings(tot.completeCfg, 400))
 	e.Extra("layer1_executions_by_mode", tot.byMode)
+	e.Extra("layer1_parallel_runs", tot.parallel)
+	e.Extra("layer1_parallel_runs_with_overlapping_operations", tot.overlap)
 	e.Extra("layer1_diverged_replays", tot.diverged)
 	e.Extra("layer1_abandoned_schedules", tot.abandoned)
 	e.Extra("layer1_stack_snapshots", tot.snapshots)
@@ -300,6 +344,8 @@ func jobCost(j job) float64 {
 		return j.Cfg.interleavingBound()
 	case "pb":
 		return float64(j.Max) * 2
+	case "par":
+		return float64(j.Max) * 4
 	default:
 		return float64(j.Max)
 	}
@@ -313,7 +359,9 @@ func (t *l1Totals) add(j job, r jobResult) {
 	t.distinct += r.Distinct
 	t.nontrivial += r.Nontrivial
 	t.byMode[j.Mode] += r.Executions
-	if r.Complete && j.Mode != "rand" {
+	if j.Mode == "par" {
+		// repetitions, not an enumeration
+	} else if r.Complete && j.Mode != "rand" {
 		t.complete++
 		what := j.Cfg.String()
 		if j.Mode == "pb" {
@@ -328,6 +376,8 @@ func (t *l1Totals) add(j job, r jobResult) {
 	t.snapshots += r.Snapshots
 	t.blockedRuns += r.Blocked
 	t.crashed += r.Crashed
+	t.parallel += r.Parallel
+	t.overlap += r.Overlap
 	t.stuck += r.Stuck
 	for k, v := range r.Lin {
 		t.lin[k] += v
